@@ -337,7 +337,18 @@ fn feat_index(b: &Built, name: &str) -> Option<usize> {
     b.si.state_model.indexed_iter().find(|(_, (n, _))| n.as_str() == name).map(|(i, _)| i)
 }
 
-fn oracle_c03(ctx: &mut Ctx, idx: usize, c: &SCase, b: &Built, r: &SearchAlgorithmResult) {
+fn oracle_c03(ctx: &mut Ctx, idx: usize, c: &SCase, b: &Built, r: &SearchAlgorithmResult, reopened: bool) {
+    // a search that re-opened a vertex (possible only with a heuristic that is inconsistent for the
+    // network, never for Dijkstra) can leave a child's entry computed from its parent's earlier
+    // label: every accumulation failure of such a run is attributed to that one recorded finding
+    let n0 = ctx.oracle_len();
+    oracle_c03_inner(ctx, idx, c, b, r);
+    if reopened && effective_wf(c) != Some(0.0) {
+        ctx.rekey_since(n0, "route/stale-link-after-reopening");
+    }
+}
+
+fn oracle_c03_inner(ctx: &mut Ctx, idx: usize, c: &SCase, b: &Built, r: &SearchAlgorithmResult) {
     let init: Vec<f64> = match b.si.state_model.initial_state() {
         Ok(s) => s.iter().map(|x| x.0).collect(),
         Err(_) => return,
@@ -549,7 +560,15 @@ fn edge_forbidden(c: &SCase, e: usize) -> Option<String> {
     None
 }
 
-fn oracle_c04(ctx: &mut Ctx, idx: usize, c: &SCase, r: &SearchAlgorithmResult) {
+fn oracle_c04(ctx: &mut Ctx, idx: usize, c: &SCase, r: &SearchAlgorithmResult, reopened: bool) {
+    let n0 = ctx.oracle_len();
+    oracle_c04_inner(ctx, idx, c, r);
+    if reopened && effective_wf(c) != Some(0.0) {
+        ctx.rekey_matching_since(n0, "route/restricted-turn", "route/restricted-turn-after-reopening");
+    }
+}
+
+fn oracle_c04_inner(ctx: &mut Ctx, idx: usize, c: &SCase, r: &SearchAlgorithmResult) {
     let endpoint_edges: HashSet<usize> = if c.edge_oriented {
         // the origin / destination edges are given by the query, not chosen by the search
         [Some(c.source), c.target].iter().flatten().cloned().collect()
@@ -601,6 +620,9 @@ fn oracle_c04(ctx: &mut Ctx, idx: usize, c: &SCase, r: &SearchAlgorithmResult) {
 fn oracle_c05(ctx: &mut Ctx, idx: usize, c: &SCase, b: &Built, o: &Outcome) {
     if has_turn_restriction(c) {
         return; // the property is about edge-local restrictions
+    }
+    if c.target == Some(c.source) {
+        return; // the property is about distinct origin and destination
     }
     let src = inner_source(c);
     let reach = reachable(c, b, src);
@@ -661,6 +683,9 @@ fn oracle_c10(ctx: &mut Ctx, idx: usize, c: &SCase, b: &Built, ex: &Exec) {
     limits(&c.term, &mut ls);
     if ls.is_empty() {
         return;
+    }
+    if c.target == Some(c.source) || ex.scheds.is_empty() {
+        return; // no search loop ran (identical or adjacent origin and destination)
     }
     let max_deg = adjacency(c).iter().map(|a| a.len()).max().unwrap_or(0);
     // iterations / tree size of the (single) underlying search
@@ -788,6 +813,12 @@ fn corpus(p: Prop) -> Vec<(SCase, LenStyle)> {
             c3.feats = vec![("distance".into(), FeatK::D(DistanceUnit::Miles), 0.0)];
             c3.target = Some(n);
             v.push((c3, LenStyle::Generic));
+            if p == Prop::C03 {
+                v.push((stale_link_witness(false), LenStyle::Generic));
+            }
+        }
+        Prop::C04 => {
+            v.push((stale_link_witness(true), LenStyle::Generic));
         }
         Prop::C10 => {
             let mut c = base(vec![(0, 1, 1.0), (1, 2, 1.0), (2, 3, 1.0)], 4);
@@ -804,6 +835,49 @@ fn corpus(p: Prop) -> Vec<(SCase, LenStyle)> {
         _ => {}
     }
     v
+}
+
+/// Witness of the recorded re-opening finding: vertices s=0, w=1, u=2, v=3, t=4 on one meridian,
+/// edge lengths (100 m, 1000 m) far below the great-circle distances, so the A* estimate is
+/// inconsistent for this network.  u is expanded first via the long edge s->u (v gets its entry from
+/// that state), then re-labelled via the short detour s->w->u; on its second expansion the edge u->v
+/// is not improved (a 2000 s right-turn delay / a restricted turn), so v keeps the entry computed from
+/// u's earlier label, and the returned route s->w->u->v->t carries that stale state.
+fn stale_link_witness(turn_restriction: bool) -> SCase {
+    // metres north of t: s 7000, w 6000, u 5000, v 5200
+    let lat = |m: f64| (39.0 + m / 111194.93) as f32;
+    SCase {
+        coords: vec![(-105.0, lat(7000.0)), (-105.0, lat(6000.0)), (-105.0, lat(5000.0)), (-105.0, lat(5200.0)), (-105.0, 39.0)],
+        // 0: s->u (1000)  1: s->w (100)  2: w->u (100)  3: u->v (100)  4: v->t (100)
+        edges: vec![(0, 2, 1000.0), (0, 1, 100.0), (1, 2, 100.0), (2, 3, 100.0), (3, 4, 100.0)],
+        feats: vec![
+            ("distance".into(), FeatK::D(DistanceUnit::Meters), 0.0),
+            ("time".into(), FeatK::T(TimeUnit::Seconds), 0.0),
+        ],
+        trav: Trav::Dist(DistanceUnit::Meters),
+        access: if turn_restriction {
+            Acc::None
+        } else {
+            Acc::Turn {
+                tu: TimeUnit::Seconds,
+                // s->u and u->v head east (no turn between them), w->u heads north (right turn onto u->v)
+                headings: vec![(90, Some(90)), (0, Some(0)), (0, Some(0)), (90, Some(90)), (90, Some(90))],
+                delays: [Some(0.0), Some(0.0), Some(0.0), Some(2000.0), Some(0.0), Some(0.0), Some(0.0), Some(0.0)],
+            }
+        },
+        weights: vec![("distance".into(), 1.0), ("time".into(), 1.0)],
+        vrates: vec![("distance".into(), VR::Raw), ("time".into(), VR::Raw)],
+        nrates: vec![],
+        agg_mul: false,
+        frontier: if turn_restriction { vec![Fr::TurnRestriction(vec![(2, 3)])] } else { vec![] },
+        term: Term::Combined(vec![]),
+        reverse: false,
+        edge_oriented: false,
+        source: 0,
+        target: Some(4),
+        astar: Some(Some(1.0)),
+        query_wf: None,
+    }
 }
 
 fn opts_for(p: Prop, rng: &mut Rng, quick: bool) -> GenOpts {
@@ -874,6 +948,10 @@ pub fn run(ctx: &mut Ctx, p: Prop) -> &'static str {
         let line = encode(&c, &b, &sched);
         let out = outcome_line(&ex.outcome);
         ctx.emit(idx, line, out.clone());
+        let reopened = {
+            let mut seen = HashSet::new();
+            sched.iter().any(|v| !seen.insert(*v))
+        };
         for d in describe(&c) {
             ctx.count(d);
         }
@@ -909,8 +987,8 @@ pub fn run(ctx: &mut Ctx, p: Prop) -> &'static str {
         match (p, &ex.outcome) {
             (Prop::C01, Outcome::Ok(r)) => oracle_c01(ctx, idx, &c, r),
             (Prop::C02, Outcome::Ok(r)) => oracle_c02(ctx, idx, &c, &b, r, style),
-            (Prop::C03, Outcome::Ok(r)) => oracle_c03(ctx, idx, &c, &b, r),
-            (Prop::C04, Outcome::Ok(r)) => oracle_c04(ctx, idx, &c, r),
+            (Prop::C03, Outcome::Ok(r)) => oracle_c03(ctx, idx, &c, &b, r, reopened),
+            (Prop::C04, Outcome::Ok(r)) => oracle_c04(ctx, idx, &c, r, reopened),
             (Prop::C05, o) => oracle_c05(ctx, idx, &c, &b, o),
             (Prop::C10, _) => oracle_c10(ctx, idx, &c, &b, &ex),
             _ => {}
